@@ -321,6 +321,7 @@ type Pat struct {
 	RestName string // "" = unnamed rest
 	Keys     []*Val // map/record keys; object attribute names as symbols
 	SymSugar bool   // map/record: print symbol keys as `a: p` instead of `:a => p`
+	Keep     bool   // the binder name is fixed (the same variable is bound at several places of one pattern)
 }
 
 func pLit(v *Val) *Pat            { return &Pat{F: fLit, V: v, Rest: -1} }
@@ -328,16 +329,18 @@ func pRel(op string, v *Val) *Pat { return &Pat{F: fRel, Op: op, V: v, Rest: -1}
 func pRange(lo *Val, op string, hi *Val) *Pat {
 	return &Pat{F: fRange, Lo: lo, Op: op, Hi: hi, Rest: -1}
 }
-func pRegex(s string) *Pat   { return &Pat{F: fRegex, V: vs(s), Rest: -1} }
-func pBind() *Pat            { return &Pat{F: fBind, Name: "?", Rest: -1} }
-func pWild() *Pat            { return &Pat{F: fWild, Rest: -1} }
-func pMust() *Pat            { return &Pat{F: fMust, Rest: -1} }
-func pNilable(p *Pat) *Pat   { return &Pat{F: fNilable, Sub: []*Pat{p}, Rest: -1} }
-func pAs(p *Pat) *Pat        { return &Pat{F: fAs, Name: "?", Sub: []*Pat{p}, Rest: -1} }
-func pOr(a, b *Pat) *Pat     { return &Pat{F: fOr, Sub: []*Pat{a, b}, Rest: -1} }
-func pAnd(a, b *Pat) *Pat    { return &Pat{F: fAnd, Sub: []*Pat{a, b}, Rest: -1} }
-func pType(cls string) *Pat  { return &Pat{F: fObj, Cls: cls, Rest: -1} }
-func pConst(cls string) *Pat { return &Pat{F: fConst, Cls: cls, Rest: -1} }
+func pRegex(s string) *Pat            { return &Pat{F: fRegex, V: vs(s), Rest: -1} }
+func (p *Pat) withName(n string) *Pat { p.Name, p.Keep = n, true; return p }
+func pVar(n string) *Pat              { return &Pat{F: fBind, Name: n, Keep: true, Rest: -1} }
+func pBind() *Pat                     { return &Pat{F: fBind, Name: "?", Rest: -1} }
+func pWild() *Pat                     { return &Pat{F: fWild, Rest: -1} }
+func pMust() *Pat                     { return &Pat{F: fMust, Rest: -1} }
+func pNilable(p *Pat) *Pat            { return &Pat{F: fNilable, Sub: []*Pat{p}, Rest: -1} }
+func pAs(p *Pat) *Pat                 { return &Pat{F: fAs, Name: "?", Sub: []*Pat{p}, Rest: -1} }
+func pOr(a, b *Pat) *Pat              { return &Pat{F: fOr, Sub: []*Pat{a, b}, Rest: -1} }
+func pAnd(a, b *Pat) *Pat             { return &Pat{F: fAnd, Sub: []*Pat{a, b}, Rest: -1} }
+func pType(cls string) *Pat           { return &Pat{F: fObj, Cls: cls, Rest: -1} }
+func pConst(cls string) *Pat          { return &Pat{F: fConst, Cls: cls, Rest: -1} }
 
 // pObj: attrs alternate name, pattern (nil pattern = shorthand identifier)
 func pObj(cls string, attrs ...any) *Pat {
@@ -427,7 +430,7 @@ func (p *Pat) rename() *Pat {
 		if q == nil {
 			return
 		}
-		if q.F == fBind || q.F == fAs {
+		if (q.F == fBind || q.F == fAs) && !q.Keep {
 			q.Name = next()
 		}
 		if (q.F == fList || q.F == fTuple) && q.RestName != "" {
@@ -463,7 +466,16 @@ func (p *Pat) binders() []string {
 		}
 	}
 	walk(p)
-	return out
+	// a variable bound at several places is one variable
+	seen := map[string]bool{}
+	var uniq []string
+	for _, n := range out {
+		if !seen[n] {
+			seen[n] = true
+			uniq = append(uniq, n)
+		}
+	}
+	return uniq
 }
 
 // precedence levels for printing: 0 = pattern (as), 1 = or operand, 2 = and operand, 3 = operand of `?`
@@ -752,9 +764,18 @@ func absentNo(p *Pat) bool {
 	return false
 }
 
-func markAll(p *Pat, e env, b bexp) {
+// markAll sets the expectation of every variable of p that does not also occur in `except`
+func markAll(p *Pat, e env, b bexp, except *Pat) {
+	skip := map[string]bool{}
+	if except != nil {
+		for _, n := range except.binders() {
+			skip[n] = true
+		}
+	}
 	for _, n := range p.binders() {
-		e[n] = b
+		if !skip[n] {
+			e[n] = b
+		}
 	}
 }
 
@@ -819,7 +840,7 @@ func match(p *Pat, v *Val, e env) tri {
 		case unspec:
 			return unspec
 		}
-		markAll(p.Sub[0], e, bexp{any: true})
+		markAll(p.Sub[0], e, bexp{any: true}, nil)
 		return b2t(v.K == kNil)
 	case fAs:
 		e[p.Name] = bexp{v: v}
@@ -827,12 +848,13 @@ func match(p *Pat, v *Val, e env) tri {
 	case fOr:
 		switch match(p.Sub[0], v, e) {
 		case yes:
-			markAll(p.Sub[1], e, bexp{unset: true})
+			// variables that occur only in the alternative not taken are nil; a variable bound by both keeps its value
+			markAll(p.Sub[1], e, bexp{unset: true}, p.Sub[0])
 			return yes
 		case unspec:
 			return unspec
 		}
-		markAll(p.Sub[0], e, bexp{any: true})
+		markAll(p.Sub[0], e, bexp{any: true}, nil)
 		return match(p.Sub[1], v, e)
 	case fAnd:
 		if r := match(p.Sub[0], v, e); r != yes {
